@@ -696,6 +696,9 @@ class Slave(logging_utils.LoggableMixin):
             self.error('invalid device')
             raise exceptions.InvalidDevice()
 
+        # Attributes that are pending provisioning keep their pending value
+        attrs.update(self.get_provisioning_attrs())
+
         await self.update_cached_attrs(attrs)
 
         if just_added and (name in _slaves_by_name or core_device_attrs.name == name):
@@ -1199,13 +1202,15 @@ class Slave(logging_utils.LoggableMixin):
     async def _handle_device_update(self, **attrs: Attribute) -> None:
         provisioning_attrs = self.get_provisioning_attrs()
 
-        # We're working on a copy, just to be sure we can safely pop stuff from it
+        # We're working on a copy, just to be sure we can safely alter it
         attrs = dict(attrs)
 
-        for name in attrs:
-            if name in provisioning_attrs:
+        # Attributes that are pending provisioning keep their pending value
+        for name in provisioning_attrs:
+            if name in attrs:
                 self.debug('ignoring device-update attribute %s due to pending provisioning attribute', name)
-                attrs.pop(name)
+
+        attrs.update(provisioning_attrs)
 
         await self.update_cached_attrs(attrs)
         await self.trigger_update()
